@@ -1,8 +1,181 @@
-/- line-protocol handlers for the C05 models (stub: nothing modelled yet) -/
-import FontVerif.Model.Base
-namespace FontVerif.Drv.C05
-open FontVerif
+/- line-protocol handlers for the C05 models (Model/Graph.lean)
 
-def handle (_cmd : String) (_args : List String) : Option String := none
+request:  g.ops <op,op,…> R <root> F <lo-hi,lo-hi,…|-> { N <id> <size> <bytes|-> { L <pos> <width> <target> <adj> } }
+  bytes : `.`-joined segments `r<hh>x<count>` (run) / `h<hex>` (literal); `-` = no bytes given
+          (then `bytes := []`: only ops that never look at bytes may be requested)
+  ops   : kahn short basic gate ovf assign iso pack ser dump
+response: one token per op, then `|` and the final state; `trap` (alone) if any op panics.
+-/
+import FontVerif.Model.Graph
+namespace FontVerif.Drv.C05
+open FontVerif FontVerif.Graph
+
+/-! ### byte-run codec (canonicalisation only; identical in harness/src/bin/c05.rs) -/
+
+def parseSeg (s : String) : Option (List Nat) :=
+  match s.toList with
+  | 'h' :: rest => parseHex? (String.ofList rest)
+  | 'r' :: a :: b :: 'x' :: cnt =>
+    match hexDigit? a, hexDigit? b, (String.ofList cnt).toNat? with
+    | some x, some y, some n => some (List.replicate n (x * 16 + y))
+    | _, _, _ => none
+  | _ => none
+
+def parseBytes (s : String) : Option (List Nat) :=
+  if s = "-" then some [] else
+  (s.splitOn ".").foldl (fun acc seg =>
+    match acc, parseSeg seg with
+    | some bs, some more => some (bs ++ more)
+    | _, _ => none) (some [])
+
+/-- length of the run of `b` at the head of the list -/
+def runLen (b : Nat) : List Nat → Nat → Nat
+  | x :: rest, n => if x = b then runLen b rest (n + 1) else n
+  | [], n => n
+
+def hex2 (b : Nat) : List Char := [hexChar (b / 16 % 16), hexChar (b % 16)]
+
+/-- runs of ≥ 8 equal bytes become `r<hh>x<n>`, everything else literal `h…` segments -/
+def rleGo : Nat → List Nat → List Char → List String → List String
+  | 0, _, _, segs => segs.reverse
+  | fuel + 1, bs, lit, segs =>
+    let flush (lit : List Char) (segs : List String) : List String :=
+      if lit.isEmpty then segs else (String.ofList ('h' :: lit.reverse)) :: segs
+    match bs with
+    | [] => (flush lit segs).reverse
+    | b :: _ =>
+      let n := runLen b bs 0
+      if n ≥ 8 then
+        rleGo fuel (bs.drop n) [] ((String.ofList (['r'] ++ hex2 b ++ ['x'] ++ (toString n).toList)) :: flush lit segs)
+      else
+        rleGo fuel (bs.drop n) ((List.replicate n (hex2 b).reverse).flatten ++ lit) segs
+
+def rle (bs : List Nat) : String :=
+  if bs.isEmpty then "-" else ".".intercalate (rleGo (bs.length + 1) bs [] [])
+
+/-! ### request parsing -/
+
+def parseRange (s : String) : Option (List Nat) :=
+  match s.splitOn "-" with
+  | [a, b] => match a.toNat?, b.toNat? with
+    | some lo, some hi => some ((List.range (hi + 1 - lo)).map (· + lo))
+    | _, _ => none
+  | _ => none
+
+def parseFresh (s : String) : Option (List Nat) :=
+  if s = "-" then some [] else
+  (s.splitOn ",").foldl (fun acc r =>
+    match acc, parseRange r with
+    | some xs, some more => some (xs ++ more)
+    | _, _ => none) (some [])
+
+def validWidth (w : Nat) : Bool := w = 2 || w = 3 || w = 4
+
+/-- parse `{ L pos width target adj }` then the rest -/
+def parseLinks : Nat → List String → List Link → Option (List Link × List String)
+  | 0, _, _ => none
+  | fuel + 1, toks, acc =>
+    match toks with
+    | "L" :: p :: w :: t :: a :: rest =>
+      match p.toNat?, w.toNat?, t.toNat?, a.toNat? with
+      | some p, some w, some t, some a =>
+        if validWidth w then parseLinks fuel rest (⟨p, w, t, a⟩ :: acc) else none
+      | _, _, _, _ => none
+    | _ => some (acc.reverse, toks)
+
+def parseNodes : Nat → List String → Map Obj → Option (Map Obj)
+  | 0, _, _ => none
+  | fuel + 1, toks, acc =>
+    match toks with
+    | [] => some acc
+    | "N" :: id :: size :: bytes :: rest =>
+      match id.toNat?, size.toNat?, parseBytes bytes with
+      | some id, some size, some bs =>
+        match parseLinks (rest.length + 1) rest [] with
+        | some (links, rest) =>
+          if acc.contains id then none
+          else if bytes ≠ "-" && bs.length ≠ size then none
+          else parseNodes fuel rest (acc.insert id ⟨size, bs, links⟩)
+        | none => none
+      | _, _, _ => none
+    | _ => none
+
+/-! ### state rendering -/
+
+def joinWith (sep : String) (xs : List String) : String :=
+  if xs.isEmpty then "-" else sep.intercalate xs
+
+def showObj (g : Graph) (kv : Nat × Obj) : String :=
+  let n := g.node kv.1
+  s!"{kv.1}:{n.position}:{n.distance}:{n.space}:" ++
+    joinWith "." (kv.2.links.map (fun l => toString l.target)) ++ ":" ++
+    joinWith "." (n.parents.map (fun p => s!"{p.1}/{p.2}"))
+
+def showState (g : Graph) : String :=
+  "order=" ++ joinWith "," (g.order.map toString) ++ s!" ns={g.nextSpace} roots=" ++
+    joinWith "," (g.numRoots.map (fun kv => s!"{kv.1}:{kv.2}")) ++ " " ++
+    " ".intercalate (g.objects.map (showObj g))
+
+def showBool (b : Bool) : String := if b then "t" else "f"
+
+def showOverflows (ovs : List Overflow) : String :=
+  "ovf=" ++ joinWith "," (ovs.map (fun o => s!"{o.1}>{o.2.1}:{o.2.2.1}:{o.2.2.2}"))
+
+/-- run one op on `(graph, fresh)`; `none` = trap; unknown op = `some none`. -/
+def runOp (op : String) (g : Graph) (fresh : List Nat) : Option (Option (String × Graph × List Nat)) :=
+  match op with
+  | "kahn" => match sortKahn g with
+    | some g => some (some ("ok", g, fresh)) | none => none
+  | "short" => match sortShortest g with
+    | some g => some (some ("ok", g, fresh)) | none => none
+  | "basic" => match basicSort g with
+    | some (b, g) => some (some (showBool b, g, fresh)) | none => none
+  | "gate" => match hasOverflows g with
+    | some b => some (some (showBool b, g, fresh)) | none => none
+  | "ovf" => match findOverflows g with
+    | some ovs => some (some (showOverflows ovs, g, fresh)) | none => none
+  | "assign" => match assignSpaces g fresh with
+    | some (b, g, fresh) => some (some (showBool b, g, fresh)) | none => none
+  | "iso" => match findOverflows g with
+    | none => none
+    | some ovs => match tryIsolating g ovs fresh with
+      | some (b, g, fresh) => some (some (showBool b, g, fresh)) | none => none
+  | "pack" => match packObjects g fresh with
+    | some (b, g, fresh) => some (some (showBool b, g, fresh)) | none => none
+  | "ser" => match serialize g with
+    | some out => some (some (rle out, g, fresh)) | none => none
+  | "dump" => match packObjects g fresh with
+    | none => none
+    | some (false, g, fresh) => some (some ("fail", g, fresh))
+    | some (true, g, fresh) => match serialize g with
+      | some out => some (some (rle out, g, fresh)) | none => none
+  | _ => some none
+
+def runOps : List String → Graph → List Nat → List String → Option (Option (List String × Graph))
+  | [], g, _, acc => some (some (acc.reverse, g))
+  | op :: ops, g, fresh, acc =>
+    match runOp op g fresh with
+    | none => none
+    | some none => some none
+    | some (some (r, g, fresh)) => runOps ops g fresh (r :: acc)
+
+def handle (cmd : String) (args : List String) : Option String :=
+  match cmd, args with
+  | "g.ops", ops :: "R" :: root :: "F" :: fresh :: rest =>
+    match root.toNat?, parseFresh fresh, parseNodes (rest.length + 1) rest [] with
+    | some root, some fresh, some objs =>
+      if !objs.contains root then none else
+      -- every link target must exist (the hook's builder guarantees it)
+      if !(objs.all (fun kv => kv.2.links.all (fun l => objs.contains l.target))) then none else
+      match runOps (ops.splitOn ",") (Graph.fromObjects objs root) fresh [] with
+      | none => some "trap"
+      | some none => none
+      | some (some (rs, g)) => some (" ".intercalate rs ++ " | " ++ showState g)
+    | _, _, _ => none
+  | "g.rle", [bytes] =>
+    match parseBytes bytes with
+    | some bs => some (rle bs)
+    | none => none
+  | _, _ => none
 
 end FontVerif.Drv.C05
